@@ -176,7 +176,7 @@ def make_table_json_precursor(cells: CellGrid, origin, fixer:ParseFixer) -> Tupl
     units = [_header_text(unit, "unit") for unit in units]
 
     if transposed and not table_is_empty:
-        data_lines = [line[2:] for line in cells[2 : 2 + n_col]]
+        data_lines = [list(line[2:]) for line in cells[2 : 2 + n_col]]
         len_longest_line = max(len(line) for line in data_lines)
 
         # Find last non-blank data row
